@@ -66,6 +66,8 @@ func (n *rxNode) render(capture bool) string {
 		return grp(x.render(capture)) + grp(y.render(capture))
 	case "alt":
 		return grp(x.render(capture) + "|" + y.render(capture))
+	case "grp":
+		return "(" + x.render(capture) + ")"
 	case "opt":
 		return grp(x.render(capture)) + "?"
 	case "star":
